@@ -1,7 +1,7 @@
 # C15 — a named output becomes visible under its final name only when complete.
 import common, p_C14, p_xw
 from concurrent.futures import ThreadPoolExecutor
-THEOREMS = ["C15_prefix", "C15_only_part_written", "C15_compressed", "C15_exporter", "C15_exporter_files", "C15_nonvacuous"]
+THEOREMS = ["C15_prefix", "C15_only_part_written", "C15_compressed", "C15_exporter", "C15_exporter_files", "C15_exporter_compressed", "C15_nonvacuous"]
 VARIANT = "plain"
 PRE = {"out2": b"an older, complete file", "out2.gz": None, "out2.xz": None}
 
